@@ -822,7 +822,8 @@ def Count(conds):
 
 
 class _Entry(object):
-  __slots__ = ('val', 'forced', 'payload', 'flipped', 'trivial')
+  __slots__ = ('val', 'forced', 'payload', 'flipped', 'trivial', 'aid',
+               'cterm')
 
   def __init__(self, val, forced, payload=None):
     self.val = val
@@ -830,6 +831,8 @@ class _Entry(object):
     self.payload = payload
     self.flipped = False
     self.trivial = False
+    self.aid = None  # z3 AST id of the (simplified) condition
+    self.cterm = None  # keeps that AST (hence its id) alive
 
 
 class Stats(object):
@@ -876,6 +879,7 @@ class Explorer(object):
     self.names = set()
     self.cover_wanted = {}
     self.exhausted = False
+    self.decided = {}  # AST id -> value, for conditions decided on this path
 
   # -- solver plumbing
   def _check(self, extra=None):
@@ -921,10 +925,16 @@ class Explorer(object):
       return e.val
     # fresh decision
     c = z3.simplify(cond)
+    aid = None
     if z3.is_true(c) or z3.is_false(c):
       e = _Entry(z3.is_true(c), True, payload)
       e.trivial = True
+    elif c.get_id() in self.decided:
+      # the very same condition was decided earlier on this path
+      e = _Entry(self.decided[c.get_id()], True, payload)
+      e.trivial = True
     else:
+      aid = c.get_id()
       can_true = self._check(c)
       if not can_true:
         e = _Entry(False, True, payload)
@@ -935,6 +945,10 @@ class Explorer(object):
         else:
           e = _Entry(True, False, payload)
           self.stats.decisions += 1
+    if aid is not None:
+      e.aid = aid
+      self.decided[aid] = e.val
+      e.cterm = c
     self.log.append(e)
     self.pos += 1
     self.solver.push()
@@ -1092,6 +1106,7 @@ class Explorer(object):
     e = self.log[i]
     e.val = not e.val
     e.flipped = True
+    self.decided = {x.aid: x.val for x in self.log if x.aid is not None}
     # pop solver frames i..end
     while self.frames > i:
       self.solver.pop()
